@@ -208,6 +208,18 @@ def gen_module(rng: random.Random, idx: int) -> tuple[str, str]:
         "@deprecated('cls old')\nclass Dep: ...",
         "class Nested:\n    class Inner:\n        v: int = 0\n        class Deeper:\n            w: str = ''",
         "class TupleSub(tuple[int, str]): ...",
+        "class GenP(Generic[P]):\n    def call(self, *a: P.args, **k: P.kwargs) -> None: ...",
+        "x_params: GenP[[int, str]]",
+        "x_params2: Gen[int, [str, bytes], float, bool]",
+        "import colorsys as _colorsys\nmod_var = _colorsys",
+        "x_del = 1\ndel x_del",
+        # variadic generics over every special class form (their implicit alias / type-var bookkeeping is recomputed on load)
+        "class VPacket(TypedDict, Generic[T, Unpack[Ts]]):\n    tag: T\n    payload: Tuple[Unpack[Ts]]",
+        "class VRow(NamedTuple, Generic[T, Unpack[Ts]]):\n    key: T\n    cells: Tuple[Unpack[Ts]]",
+        "class VTup(Tuple[T, Unpack[Ts]], Generic[T, Unpack[Ts]]): ...",
+        "class VCls(Generic[T, Unpack[Ts]]):\n    def get(self) -> Tuple[T, Unpack[Ts]]: ...",
+        "class VTD1(TypedDict, Generic[T]):\n    item: T",
+        "class VNT1(NamedTuple, Generic[T]):\n    item: T",
         "class PromoteLike(int): ...",
         "",
         "def __getattr__(name: str) -> Any: ..." if r() < 0.5 else "",
@@ -216,6 +228,110 @@ def gen_module(rng: random.Random, idx: int) -> tuple[str, str]:
         L += ["@disjoint_base\nclass DB: ...", ""]
     name = f"c11_gen{idx}"
     return name, "\n".join(x for x in L if x is not None) + "\n"
+
+
+ENUM_MODULE = '''\
+import enum
+class Color(enum.Enum):
+    RED = 1
+    GREEN = 2
+    BLUE = 3
+'''
+ENUM_MAIN = '''\
+from c11_enum import Color
+def f(c: Color) -> None:
+    if c is Color.GREEN:
+        return
+    reveal_type(c)
+'''
+TS_MODULE = '''\
+from typing import Any, Callable, TypeVar, overload
+S = TypeVar("S")
+def selfish(f: Callable[..., Any]) -> Callable[[S, int], S]: ...
+class A:
+    @overload
+    @selfish
+    def m(self, x: int) -> int: ...
+    @overload
+    def m(self, x: str) -> str: ...
+    def m(self, x: Any) -> Any: ...
+'''
+TS_MAIN = '''\
+from c11_ts import A
+reveal_type(A().m(1))
+reveal_type(A().m)
+'''
+
+
+def top_names(src: str) -> list[str]:
+    import ast
+    out: list[str] = []
+    for n in ast.parse(src).body:
+        if isinstance(n, (ast.ClassDef, ast.FunctionDef, ast.AsyncFunctionDef)):
+            out.append(n.name)
+        elif isinstance(n, ast.AnnAssign) and isinstance(n.target, ast.Name):
+            out.append(n.target.id)
+        elif isinstance(n, ast.Assign):
+            out += [t.id for t in n.targets if isinstance(t, ast.Name)]
+        elif isinstance(n, ast.TypeAlias) and isinstance(n.name, ast.Name):
+            out.append(n.name.id)
+    return list(dict.fromkeys(x for x in out if not x.startswith("__")))
+
+
+def gen_use(gen_name: str, gen_src: str, idx: int) -> tuple[str, str]:
+    """a module that *uses* a generated module: it is rechecked in the warm run, so its diagnostics show what
+    importing code sees of the reloaded interface (compared with the cold run)"""
+    L = [f"import {gen_name} as g", "from typing import Any",
+         # more arguments than type variables: only legal because of the TypeVarTuple
+         "def use_variadic(a: g.VPacket[str, int, bytes], b: g.VRow[str, int, bytes], c: g.VTup[str, int, bytes],",
+         "                 d: g.VCls[str, int, bytes], e: g.VPacket[str], f: g.VTD1[int], h: g.VNT1[int]) -> None:",
+         "    reveal_type(a); reveal_type(a['payload']); reveal_type(b); reveal_type(b.cells); reveal_type(c)",
+         "    reveal_type(d.get()); reveal_type(e['payload']); reveal_type(f); reveal_type(h)",
+         "g.VPacket[str, int, bytes](tag='x', payload=(1, b''))",
+         "g.VRow[str, int, bytes]('k', (1, b''))",
+         "def use_alias(x: g.Alias[int], y: g.Alias2, z: g.NT, w: g.TDict, n: g.NTup, k: g.Child, c: g.Color) -> None:",
+         "    reveal_type(x); reveal_type(y); reveal_type(z); reveal_type(w); reveal_type(n); reveal_type(n.a)",
+         "    reveal_type(k.prop); reveal_type(k.cm()); reveal_type(k.om(1)); reveal_type(k.trivial_self()); reveal_type(k.FIN)",
+         "    reveal_type(k.attr); reveal_type(g.Child.sm(1)); reveal_type(c.value)",
+         "reveal_type(g.f_over(1)); reveal_type(g.f_generic(1, '', b'')); reveal_type(g.f_guard); reveal_type(g.f_is)",
+         "reveal_type(g.f_pspec); reveal_type(g.DC); reveal_type(g.DTC); reveal_type(g.Gen); reveal_type(g.Proto)"]
+    for nm in top_names(gen_src):
+        if nm in ("T", "TB", "TC", "TD_", "P", "Ts"):
+            continue
+        L.append(f"reveal_type(g.{nm})")
+    return f"c11_use{idx}", "\n".join(L) + "\n"
+
+
+def gen_use_std(repo: str, rng: random.Random, mods: list[str], n: int) -> tuple[str, str]:
+    """reveal_type of randomly chosen public top-level symbols of the stdlib stubs (names read from the stubs' AST)"""
+    import ast, os
+    root = os.path.join(repo, "mypy", "typeshed", "stdlib")
+    pairs: list[tuple[str, str]] = []
+    for m in mods:
+        base = os.path.join(root, *m.split("."))
+        path = base + ".pyi" if os.path.exists(base + ".pyi") else os.path.join(base, "__init__.pyi")
+        if not os.path.exists(path):
+            continue
+        try:
+            tree = ast.parse(open(path).read())
+        except SyntaxError:
+            continue
+        for node in tree.body:
+            nm = None
+            if isinstance(node, (ast.ClassDef, ast.FunctionDef, ast.AsyncFunctionDef)):
+                nm = node.name
+            elif isinstance(node, ast.AnnAssign) and isinstance(node.target, ast.Name):
+                nm = node.target.id
+            elif isinstance(node, ast.Assign) and len(node.targets) == 1 and isinstance(node.targets[0], ast.Name):
+                nm = node.targets[0].id
+            if nm and not nm.startswith("_"):
+                pairs.append((m, nm))
+    pairs = list(dict.fromkeys(pairs))
+    rng.shuffle(pairs)
+    pairs = pairs[:n]
+    mods_used = list(dict.fromkeys(m for m, _ in pairs))
+    L = [f"import {m}" for m in mods_used] + [f"reveal_type({m}.{nm})" for m, nm in pairs]
+    return "c11_use_std", "\n".join(L) + "\n"
 
 
 def gen_user(rng: random.Random, gens: list[str]) -> tuple[str, str]:
